@@ -40,3 +40,5 @@ def preload():
     install()
     for m in ALL:
         repo.mod(m)
+    from . import simcrash
+    simcrash.install()
